@@ -448,8 +448,8 @@ func Overlaps(a, b *Graph) []Overlap {
 func OutermostSites(ov []Overlap) map[string]Overlap {
 	first := map[string]Overlap{}
 	for _, o := range ov {
-		if _, ok := first[o.A.Site]; !ok {
-			first[o.A.Site] = o
+		if f, ok := first[o.A.Site]; !ok || o.A.Size > f.A.Size {
+			first[o.A.Site] = o // the largest region of the site describes it best
 		}
 	}
 	sites := make([]string, 0, len(first))
